@@ -25,7 +25,7 @@ where CL03<CS>: Scheme<PubKey = CL03PublicKey, PrivKey = CL03SecretKey>, CS::Has
     let widths: Vec<(&str, Integer)> = vec![("1", Integer::from(1)), ("2", Integer::from(2)), ("3", Integer::from(3)), ("4", Integer::from(4)), ("255", Integer::from(255)), ("2^64", pow2(64)), ("2^256-1", pow2(256) - 1u32)];
     let offsets: Vec<(&str, Integer)> = vec![("0", Integer::from(0)), ("1", Integer::from(1)), ("2^32", pow2(32))];
     #[derive(Clone)]
-    enum Kind { Complete, OutOfRange, Transplant, Leaf(usize, usize), Statement }
+    enum Kind { Complete, OutOfRange, Transplant, Leaf(usize, usize), Statement, SignFlip }
     struct Root { id: String, s: usize, wi: usize, oi: usize, kind: Kind }
     let mut roots = Vec::new();
     for s in 0..2 { for wi in 0..widths.len() { for oi in 0..offsets.len() {
@@ -34,7 +34,8 @@ where CL03<CS>: Scheme<PubKey = CL03PublicKey, PrivKey = CL03SecretKey>, CS::Has
     } } }
     for s in 0..2 { for wi in [1usize, 4, 6] { roots.push(Root { id: format!("{}/{}/w={}/transplant", CS::NAME, settings[s].0, widths[wi].0), s, wi, oi: 1, kind: Kind::Transplant }); roots.push(Root { id: format!("{}/{}/w={}/statement", CS::NAME, settings[s].0, widths[wi].0), s, wi, oi: 1, kind: Kind::Statement }); } }
     for (s, wi) in [(0usize, 4usize), (1, 6)] { if s == 1 && !env.thorough() { continue; } let nch = 16; for ch in 0..nch { roots.push(Root { id: format!("{}/{}/w={}/leaf-edits/chunk{}", CS::NAME, settings[s].0, widths[wi].0, ch), s, wi, oi: 1, kind: Kind::Leaf(ch, nch) }); } }
-    env.ctx.set_rule("completeness: 2 (bases, modulus) settings x 7 interval widths {1,2,3,4,255,2^64,2^256-1} x 3 offsets {0,1,2^32} x 5 points {a, a+1, mid, b-1, b} => verify = true; honest prover out of range: x in {a-1, b+1, a-2^64, b+2^64} => no accepted proof (a prover panic is a refusal); transplants: per honest proof, 5 target commitments {commit(a-1), commit(b+1), commit(a-2^64), commit(-5), random group element} x ALL 16 keep/recompute patterns over {E_a_1, E_a_2, E_b_1, E_b_2} with E, E_prime re-targeted => rejected; statement edits: honest first, then shifted intervals of the same width (and an honest proof for the shifted interval must verify right after), bounds a+-1, b+-1, other bases, other modulus => rejected; transplants also re-target the honest commitment to the bounds [a+1, b] and [a, b-1] with all 16 patterns; leaf edits: every integer leaf +1/-1/zero/sibling swap => rejected. State = (setting, interval, point / attack); non-trivial = the real verifier ran.");
+    roots.push(Root { id: format!("{}/{}/w=255/sign-flip", CS::NAME, settings[0].0), s: 0, wi: 4, oi: 1, kind: Kind::SignFlip });
+    env.ctx.set_rule("completeness: 2 (bases, modulus) settings x 7 interval widths {1,2,3,4,255,2^64,2^256-1} x 3 offsets {0,1,2^32} x 5 points {a, a+1, mid, b-1, b} => verify = true; honest prover out of range: x in {a-1, b+1, a-2^64, b+2^64} => no accepted proof (a prover panic is a refusal); transplants: per honest proof, 5 target commitments {commit(a-1), commit(b+1), commit(a-2^64), commit(-5), random group element} x ALL 16 keep/recompute patterns over {E_a_1, E_a_2, E_b_1, E_b_2} with E, E_prime re-targeted => rejected; statement edits: honest first, then shifted intervals of the same width (and an honest proof for the shifted interval must verify right after), bounds a+-1, b+-1, other bases, other modulus => rejected; transplants also re-target the honest commitment to the bounds [a+1, b] and [a, b-1] with all 16 patterns; leaf edits: every integer leaf +1/-1/zero/+N/sibling swap => rejected; sign flips: every group-element leaf v := N - v, searched over a pool of 32 honest proofs (acceptance depends on exponent parities) => rejected. State = (setting, interval, point / attack); non-trivial = the real verifier ran.");
     par_for(&roots, |_, r| {
         if !env.want(&r.id) || env.ctx.out_of_time() { return; }
         let (sn, g, h, n) = (&settings[r.s].0, &settings[r.s].1, &settings[r.s].2, &settings[r.s].3);
@@ -140,6 +141,13 @@ where CL03<CS>: Scheme<PubKey = CL03PublicKey, PrivKey = CL03SecretKey>, CS::Has
                 if which == "x=a" { env.ctx.sample(json!({"root": r.id, "targets": targets.iter().map(|t| t.0.clone()).collect::<Vec<_>>(), "patterns": 16})); }
                 }
             }
+            Kind::SignFlip => {
+                let k = if env.thorough() { 64 } else { 32 };
+                let pool: Vec<Value> = (0..k).filter_map(|i| { let c = commit(&mid, &rnd(&format!("sf{}", i)), g, h, n); prove(&mid, &c, &a, &b).ok().map(|p| to_json(&p)) }).collect();
+                if pool.is_empty() { env.machinery("sign-flip pool empty"); return; }
+                let res = sign_flip_search(&pool, n, &|_k, x| match from_json::<RP>(x) { Some(q) => vcall(|| q.verify::<CS::HashAlg>(g, h, n, &a, &b)), None => O::Ok(false) });
+                report_sign_flips(env, &r.id, "range proof", &res, pool.len(), det0.clone());
+            }
             Kind::Leaf(ch, nch) => {
                 let c = commit(&mid, &rnd("lf"), g, h, n);
                 let p = match prove(&mid, &c, &a, &b) { O::Ok(p) => p, o => { env.ctx.violation("C16:complete:prove-failed", &o.describe(), env.case(&r.id, det0)); return; } };
@@ -148,7 +156,7 @@ where CL03<CS>: Scheme<PubKey = CL03PublicKey, PrivKey = CL03SecretKey>, CS::Has
                 for (li, path) in leaves.iter().enumerate() {
                     if li % nch != *ch { continue; }
                     let cur = leaf_int(json_get(&j, path).unwrap()).unwrap();
-                    let mut edits: Vec<(String, Value)> = leaf_perturbations(&cur).into_iter().map(|(nm, v)| { let mut x = j.clone(); json_set(&mut x, path, int_leaf(&v)); (nm.to_string(), x) }).collect();
+                    let mut edits: Vec<(String, Value)> = leaf_perturbations_mod(&cur, &[("N", n)]).into_iter().map(|(nm, v)| { let mut x = j.clone(); json_set(&mut x, path, int_leaf(&v)); (nm, x) }).collect();
                     if let Some(sib) = leaves.iter().skip(li + 1).find(|q| q.len() == path.len() && q[..q.len() - 1] == path[..path.len() - 1]) {
                         let ov = json_get(&j, sib).unwrap().clone();
                         if ov != *json_get(&j, path).unwrap() { let mut x = j.clone(); json_set(&mut x, path, ov); json_set(&mut x, sib, int_leaf(&cur)); edits.push((format!("swap with {}", sib.last().unwrap()), x)); }
@@ -158,7 +166,7 @@ where CL03<CS>: Scheme<PubKey = CL03PublicKey, PrivKey = CL03SecretKey>, CS::Has
                         if !env.ctx.state(&[r.id.as_bytes(), name.as_bytes()]) { continue; }
                         let p2: Option<RP> = from_json(&x);
                         let got = match &p2 { Some(q) => verify(q, g, h, n, &a, &b), None => O::Ok(false) };
-                        expect_bool(env, &r.id, &format!("verify after leaf edit {}", name), &got, false, true, &format!("leaf-edit:/{}", path_class(path)), json!({"base": det0, "leaf": path.join("/"), "edit": nm}));
+                        expect_bool(env, &r.id, &format!("verify after leaf edit {}", name), &got, false, true, &format!("leaf-edit{}:/{}", if nm.contains('N') { ":other-representative" } else { "" }, path_class(path)), json!({"base": det0, "leaf": path.join("/"), "edit": nm}));
                         env.ctx.class(&format!("leaf:{}", match got { O::Ok(false) => "rejected", O::Ok(true) => "accepted", _ => "refused-by-panic" })); env.ctx.trace();
                     }
                 }
